@@ -125,7 +125,7 @@ class Check:
         seen_keys = set()
         for r in self.rules.values():
             status = "ok"
-            if len(r.instances) < r.floor:
+            if len(r.instances) < r.floor and not r.findings:
                 errors.append(f"rule {r.rid} matched {len(r.instances)} instance(s), floor is {r.floor}: {r.desc}")
                 status = "analysis-error"
             uniq = []
@@ -168,12 +168,12 @@ class Check:
             out.append(f"VIOLATION property={self.prop} replay={rp}")
         wall = time.time() - self.t0
         code = 0
-        if errors:
+        for e in errors:
+            out.append(f"ANALYSIS-ERROR property={self.prop} {e}")
+        if n_viol:
+            code = 1  # a concrete violation outranks an unmet floor elsewhere
+        elif errors:
             code = 2
-            for e in errors:
-                out.append(f"ANALYSIS-ERROR property={self.prop} {e}")
-        elif n_viol:
-            code = 1
         self._write_evidence(wall, n_viol, n_known, errors, stale)
         if not self.quiet:
             print("\n".join(out))
